@@ -134,8 +134,10 @@ func (c *FnCtx) callStatic(fr *Frame, st *State, callee *ssa.Function, args []SV
 		// a method of a dependency called on a pointer that came back from a dependency call
 		// together with an error (whatever models the method: contract, handler or nothing)
 		if _, isPtr := sig.Recv().Type().Underlying().(*types.Pointer); isPtr {
-			if rv, ok := args[0].(Sc); ok && c.extPtrs[rv.T.S] {
-				c.safety("extnil", st, Not(Eq(rv.T, IntLit(0))))
+			if rv, ok := args[0].(Sc); ok {
+				if when, tainted := c.extPtrs[rv.T.S]; tainted {
+					c.safety("extnil", st, Implies(when, Not(Eq(rv.T, IntLit(0)))))
+				}
 			}
 		}
 	}
@@ -512,6 +514,9 @@ func (c *FnCtx) useContract(fr *Frame, st *State, ct *FuncContract, callee *ssa.
 		c.assumeAllocatedSV(st, res, rt)
 	}
 	if ct.Trusted && res != nil && c.inSpec == 0 {
+		// results of a dependency described by a trusted contract are dependency results too
+		// (safety kind extnil)
+		c.markExtResult(res, rt)
 		c.trustedCalls[name]++
 		c.watchValue(fmt.Sprintf("ret %s#%d", name, c.trustedCalls[name]), res)
 	}
